@@ -28,7 +28,7 @@ NSHARDS = 16
 
 
 def plan(tier, seed):
-    n = 60 if tier == "quick" else 1500
+    n = 130 if tier == "quick" else 1500
     return [{"shard": i, "cases": n} for i in range(NSHARDS)]
 
 
